@@ -10,7 +10,7 @@ def rows(prefix_r2):
     for d in sorted(os.listdir('/verif/seeded')):
         mp=f'/verif/seeded/{d}/meta.json'
         if not os.path.exists(mp): continue
-        rnd = 6 if d.startswith('R6-') else 5 if d.startswith('R5-') else 4 if d.startswith('R4-') else 3 if d.startswith('R3-') else (True if d.startswith('R2-') else False)
+        rnd = 7 if d.startswith('R7-') else 6 if d.startswith('R6-') else 5 if d.startswith('R5-') else 4 if d.startswith('R4-') else 3 if d.startswith('R3-') else (True if d.startswith('R2-') else False)
         if rnd != prefix_r2: continue
         m=json.load(open(mp)); det=m.get('detection',{})
         fd=det.get('first_detail','')
